@@ -3,5 +3,5 @@
 set -e
 D=$1
 git -C /repo worktree add --detach "$D" HEAD >/dev/null 2>&1
-cd /repo && find compmech -name '*.so' | while read f; do cp -p "$f" "$D/$f"; done
+cd /repo && find compmech -name "*.so" -o -name version.py | while read f; do cp -p "$f" "$D/$f"; done
 echo "worktree $D ready"
